@@ -124,6 +124,13 @@ def r18_5(rep, M, rid):
     sl = fl.slice(srt.value.args[0], fl.node_of(srt))
     by_dist = any(isinstance(x, ast.Call) and M.ext_name(FQ, x.func) == "numpy.linalg.norm" for e in sl["exprs"] for x in ast.walk(e)) and \
         any(isinstance(x, ast.BinOp) and isinstance(x.op, ast.Sub) and cm_name in {norm(x.left), norm(x.right)} for e in sl["exprs"] for x in ast.walk(e))
+    for e in sl["exprs"]:
+        for x in ast.walk(e):
+            if isinstance(x, ast.Call) and M.ext_name(FQ, x.func) == "numpy.linalg.norm":
+                ax = next((k.value for k in x.keywords if k.arg == "axis"), None)
+                if not (isinstance(ax, ast.Constant) and ax.value in (1, -1)):
+                    rep.violation(rid, f"classify: `{norm(x)[:50]}`", "the distance of each atom to the centre of mass is a norm over axis 1 of the (atoms x 3) array; "
+                                  "over another axis there are three numbers, the seed loop sees atoms 0..2 only", M.where(FQ, x))
     desc = any(isinstance(x, ast.UnaryOp) and isinstance(x.op, ast.USub) for x in ast.walk(srt.value)) or \
         any(isinstance(x, ast.Subscript) and norm(x.slice).replace(" ", "") == "::-1" for x in ast.walk(srt.value))
     order = norm(srt.targets[0])
@@ -203,6 +210,13 @@ def r18_6(rep, M, rid):
                       "connected only if some unit was reached along both", M.where(fq))
         return
     in_edges = any(isinstance(c, ast.Call) and isinstance(c.func, ast.Attribute) and c.func.attr == "in_edges" for c in ast.walk(fn))
+    for c in [c for c in ast.walk(fn) if isinstance(c, ast.Call) and isinstance(c.func, ast.Attribute) and c.func.attr == "in_edges"]:
+        dv = next((k.value for k in c.keywords if k.arg == "data"), None)
+        if isinstance(dv, ast.Constant) and dv.value is True:
+            rep.ok(rid, "get_connected_directions: the incoming edges are read with their data (the multipliers)")
+        else:
+            rep.violation(rid, f"get_connected_directions: `{norm(c)[:50]}`", "the incoming edges are read without their data dictionaries, but the multiplier of each edge is "
+                          "looked up in them: the lookup fails (or finds nothing) and no direction is ever found connected", M.where(fq, c))
     both = [t for t in ast.walk(fn) if isinstance(t, ast.If) and isinstance(t.test, ast.BoolOp) and isinstance(t.test.op, ast.And)
             and any(isinstance(s, ast.Expr) and isinstance(s.value, ast.Call) and isinstance(s.value.func, ast.Attribute) and s.value.func.attr == "add" for s in t.body)]
     either = [t for t in ast.walk(fn) if isinstance(t, ast.If) and isinstance(t.test, ast.BoolOp) and isinstance(t.test.op, ast.Or)
